@@ -276,6 +276,9 @@ func vfC14RenderWrite(e vfdoubles.LogEntry) (string, bool) {
 		}
 		return "?hset " + vfutil.Hex(a[1]), true
 	case "del", "unlink":
+		if len(a) == 2 && string(a[1]) == checkpoint.BisyncFrontierKey(vfC14Cp) {
+			return "delfr", true
+		}
 		var ks []string
 		for _, k := range a[1:] {
 			ks = append(ks, kseq(string(k)))
@@ -489,6 +492,10 @@ func vfC14GenNS(r *vfutil.Rand, ids []string, mode string) *vfNS {
 		default:
 			ns.rootOff = int64(r.Range(0, 1000))
 		}
+		if r.Chance(1, 4) { // boundary of the root override: root = selected offset -1 / 0 / +1
+			ns.rootOff = top + int64(r.Range(-1, 1))
+			ns.rootRid = rid
+		}
 		if r.Chance(1, 6) {
 			ns.rootDb = r.Range(1, 3)
 		}
@@ -613,6 +620,16 @@ func vfC14GenCoord(r *vfutil.Rand) (string, int64, int64, []vfCEv) {
 	seq0 := int64(r.Range(0, 20))
 	off0 := 5000 + seq0*10
 	n := r.Range(1, 14)
+	if r.Chance(1, 40) { // the 512-unit flush threshold: many completions within one flush interval
+		n = r.Range(510, 530)
+		var evs []vfCEv
+		for q := seq0 + 1; q <= seq0+int64(n); q++ {
+			rec := &checkpoint.BisyncCommitRecord{Key: vfC14CommitKey(q), RecordType: "commit", Version: config.Version, RunID: rid,
+				SyncerID: "vf", UnitSeq: q, StartOffset: 5000 + (q-1)*10, EndOffset: 5000 + q*10, MTime: 1000, Digest: "d"}
+			evs = append(evs, vfCEv{rec, 0})
+		}
+		return rid, seq0, off0, evs
+	}
 	order := make([]int64, n)
 	for i := range order {
 		order[i] = seq0 + 1 + int64(i)
@@ -648,6 +665,48 @@ func vfC14GenCoord(r *vfutil.Rand) (string, int64, int64, []vfCEv) {
 		evs = append(evs, vfCEv{nil, time.Duration(r.Range(0, 200)) * time.Millisecond})
 	}
 	return rid, seq0, off0, evs
+}
+
+// ------------------------------------------------------------ best latest record over several slots
+
+// vfC14Best: the real LoadBisyncLatestStartRecord over 1-4 recovery slots (what a cluster start
+// scans), latest records with equal / different end offsets and mtimes, foreign run ids.
+func vfC14Best(s *vfutil.Session, tag int, r *vfutil.Rand) {
+	ids := []string{"run-" + strconv.Itoa(r.Intn(9)), "prev-" + strconv.Itoa(r.Intn(9))}
+	tg := vfdoubles.NewTarget()
+	slots := []uint16{0, 5, 9, 77}[:r.Range(1, 4)]
+	var parts []string
+	var use []uint16
+	for _, sl := range slots {
+		if r.Chance(1, 5) {
+			use = append(use, sl) // slot without latest record
+			continue
+		}
+		rec := &checkpoint.BisyncCommitRecord{Version: config.Version, RunID: vfutil.Pick(r, []string{ids[0], ids[0], ids[1], "foreign"}), SyncerID: "vf",
+			UnitSeq: int64(r.Range(1, 9)), EndOffset: 1000 + int64(r.Range(0, 3))*10, MTime: int64(r.Range(1, 3)), Slot: sl, Digest: "d"}
+		rec.StartOffset = rec.EndOffset - 5
+		tg.Seed(0, vfArgs(checkpoint.BisyncLatestCheckpointKey(vfC14Cp, checkpoint.BisyncSlotTag(sl)), rec.HashArgs())...)
+		parts = append(parts, checkpoint.VfRecStr(rec))
+		use = append(use, sl)
+	}
+	cli := checkpoint.VfConn(tg)
+	best, n, err := checkpoint.LoadBisyncLatestStartRecord(cli, vfC14Cp, use, ids)
+	cli.Close()
+	tg.CloseAll()
+	rs := "."
+	if len(parts) > 0 {
+		rs = strings.Join(parts, ";")
+	}
+	line := fmt.Sprintf("#%d err", tag)
+	if err == nil {
+		b := "-"
+		if best != nil {
+			b = checkpoint.VfRecStr(best)
+		}
+		line = fmt.Sprintf("#%d best=%s n=%d", tag, b, n)
+	}
+	s.Op(fmt.Sprintf("c14b %d %s %s", tag, checkpoint.VfHexList(ids), rs), line)
+	s.Count("best_latest")
 }
 
 // ------------------------------------------------------------ corpus / main
@@ -691,6 +750,11 @@ func TestVerifC14(t *testing.T) {
 		mode := vfutil.Pick(rr, []string{"F", "F", "P", "L"})
 		ns := vfC14GenNS(rr, ids, mode)
 		vfC14StartCase(t, s, &tag, mode, ids, ns, 0, false, rr.Range(0, 3), rr, "gen")
+	}
+	n = vfutil.Scale(300, 6000)
+	for i := 0; i < n; i++ {
+		vfC14Best(s, tag, r.Fork())
+		tag++
 	}
 	n = vfutil.Scale(400, 8000)
 	for i := 0; i < n; i++ {
